@@ -669,6 +669,8 @@ def _gi_samples():
             "subpixel": Affine.translation(5.3, -2.6),
             "scaled": Affine.scale(2.0) * Affine.translation(-3, 4),
             "rotated": Affine.rotation(25.0),
+            "mirrored_subpixel": Affine.translation(60.4, 3.7) * Affine.scale(-1, 1),
+            "mirrored_y_scaled": Affine.translation(2.0, 45.5) * Affine.scale(1.3, -1.3),
             "touching": Affine.translation(64, 0),
             "disjoint": Affine.translation(300, 300),
             "disjoint_rot": Affine.translation(400, -300) * Affine.rotation(10.0),
@@ -690,7 +692,7 @@ def _gi_samples():
         for oname, sg in (("north_up", coarse), ("flipx", coarse.flipx()), ("flipy", coarse.flipy()), ("rot180", coarse.flipx().flipy())):
             yield dict(self=GeoboxTiles(fine, (32, 32)), src=GeoboxTiles(sg, (5, 5)), kind=f"coarse-src-{oname}")
 
-    return "28 same-CRS pairs (aligned, sub-pixel, scaled, rotated, touching, disjoint) x 2x2 tilings + 6 cross-CRS pairs (overlapping, partly, disjoint) + 4 coarse-source / fine-destination cross-CRS pairs (source north-up, mirrored in x, in y, both)", gen()
+    return "36 same-CRS pairs (aligned, sub-pixel, scaled, rotated, mirrored + sub-pixel, mirrored + x1.3, touching, disjoint) x 2x2 tilings + 6 cross-CRS pairs (overlapping, partly, disjoint) + 4 coarse-source / fine-destination cross-CRS pairs (source north-up, mirrored in x, in y, both)", gen()
 
 
 def _gi_post(self, src, kind, result):
@@ -721,4 +723,64 @@ contract(
     verify=False,
     trusted_reason="loops over numpy.ndindex, shapely footprints, pyproj: BOUNDED native check against brute force over all tile pairs",
     native_samples=_gi_samples,
+)
+
+
+# ---- same-CRS linear dependency map: per destination tile, the query box contains the tile's image --------------------------------
+
+
+def _lemma_gi_linear(self, idx, sx, sy, tx, ty, p, q):
+    """the real _grid_intersect_linear with its loop restricted to ONE (symbolic) destination tile and the source
+    lookup recorded: the box handed to src.tiles() contains the image A(p, q) of every point (p, q) of the
+    tile's pixel rectangle -- for either sign of each scale (mirrored grids), any shift"""
+    GT = repo(GBX).GeoboxTiles
+    A = repo("affine").Affine(sx, 0, tx, 0, sy, ty)
+    asked = []
+
+    class Src:
+        def tiles(self, bbox):
+            asked.append(bbox)
+            return [("src-tile-of", len(asked))]
+
+    class HIdx(tuple):
+        """the symbolic tile index as a dictionary key (hashed by identity: the code only stores under it)"""
+
+        __hash__ = object.__hash__
+        __eq__ = object.__eq__
+
+    key = HIdx(idx)
+    saved = GT.__dict__["_all_tiles"]
+    try:
+        GT._all_tiles = lambda s: iter([key])
+        deps = self._grid_intersect_linear(Src(), A)
+    finally:
+        GT._all_tiles = saved
+    claim(len(asked) == 1 and list(deps) == [key] and deps[key] == [("src-tile-of", 1)], "one source query per destination tile; its answer is the tile's dependency list")
+    bb = asked[0]
+    ix, iy = A * (p, q)
+    claim(And(bb.left <= ix, ix <= bb.right, bb.bottom <= iy, iy <= bb.top), "the queried box contains the image of every point of the destination tile's rectangle (mirrored axes and sub-pixel shifts included)")
+    claim(And(is_int_valued(bb.left), is_int_valued(bb.right), is_int_valued(bb.bottom), is_int_valued(bb.top)), "... and is made of whole source pixels")
+    x0 = o_reg(idx[1], self._gbox.shape.x, self._tiles._tile_shape.x)
+    x1 = o_reg(idx[1] + 1, self._gbox.shape.x, self._tiles._tile_shape.x)
+    lo, hi = Min(sx * x0 + tx, sx * x1 + tx), Max(sx * x0 + tx, sx * x1 + tx)
+    claim(And(bb.left > lo - 1, bb.right < hi + 1), "... and exceeds the image by less than one source pixel per side (no spurious dependencies beyond rounding)")
+
+
+lemma(
+    "geobox.grid_intersect_linear_tile",
+    ["C12", "C13", "C03"],
+    inputs=dict(self=GBT(), idx=Tup(Int(ge=0), Int(ge=0)), sx=OneOf(Real(gt=0), Real(lt=0)), sy=OneOf(Real(gt=0), Real(lt=0)), tx=Real(), ty=Real(), p=Real(), q=Real()),
+    requires=[
+        lambda self: wf_gbt(self),
+        lambda self, idx: And(idx[0] < self._tiles._shape.y, idx[1] < self._tiles._shape.x),
+        lambda self, idx, p, q: And(
+            o_reg(idx[1], self._gbox.shape.x, self._tiles._tile_shape.x) <= p,
+            p <= o_reg(idx[1] + 1, self._gbox.shape.x, self._tiles._tile_shape.x),
+            o_reg(idx[0], self._gbox.shape.y, self._tiles._tile_shape.y) <= q,
+            q <= o_reg(idx[0] + 1, self._gbox.shape.y, self._tiles._tile_shape.y),
+        ),
+    ],
+    body=_lemma_gi_linear,
+    unstub=[f"{GEOM}:BoundingBox.transform"],
+    note="(p, q) is a ghost point of the tile, universally quantified; completeness of src.tiles(box) for a pixel box is range_from_bbox's contract; the enumeration over all destination tiles (numpy.ndindex) is covered by the bounded check",
 )
